@@ -271,7 +271,8 @@ type walkDev struct {
 	Path   []int          `json:"path"`
 }
 
-const walkTimeout = 20 * time.Second
+const walkTimeout = 20 * time.Second // a call that makes no progress for this long hangs
+const stepTimeout = 3 * time.Second  // a guided step that does not arrive where the model says is a mismatch
 
 // nextEdge: an unvisited out-edge if there is one, else the first edge of a shortest path to an unvisited edge,
 // else a random out-edge
@@ -311,7 +312,7 @@ func (g *wGraph) nextEdge(cur int, r *rand.Rand) int {
 	return outs[r.Intn(len(outs))]
 }
 
-func walkOnce(g *wGraph, cfg *parConfig, tr int, r *rand.Rand, forced []int) (evs []map[string]any, dev, mismatch *walkDev, steps int) {
+func walkOnce(g *wGraph, cfg *parConfig, tr int, r *rand.Rand, forced []int, randomOnly bool) (evs []map[string]any, dev, mismatch *walkDev, steps int) {
 	call := parPrepare(cfg, r)
 	s := newWalkSched(tr)
 	setGateFunc(s.gate)
@@ -335,7 +336,10 @@ func walkOnce(g *wGraph, cfg *parConfig, tr int, r *rand.Rand, forced []int) (ev
 	cur := g.init
 	res := ""
 	returned := false
-	for step := 0; ; step++ {
+	if randomOnly { // the code has left the model on earlier walks: schedule this call at random from the start
+		dev = fail(0, "model-abandoned", nil)
+	}
+	for step := 0; dev == nil; step++ {
 		steps = step
 		if len(g.out[cur]) == 0 || g.final[cur] {
 			break
@@ -359,7 +363,7 @@ func walkOnce(g *wGraph, cfg *parConfig, tr int, r *rand.Rand, forced []int) (ev
 			pi := procIndex(p)
 			from := g.gates[cur][pi]
 			if from.Site != "none" {
-				at, ok := s.waitParked(p, walkTimeout)
+				at, ok := s.waitParked(p, stepTimeout)
 				if !ok {
 					dev = fail(step, "not-parked", map[string]any{"proc": procName(p), "expected": from})
 					break
@@ -372,7 +376,7 @@ func walkOnce(g *wGraph, cfg *parConfig, tr int, r *rand.Rand, forced []int) (ev
 			}
 			to := g.gates[e.to][pi]
 			if to.Site != "none" {
-				at, ok := s.waitParked(p, walkTimeout)
+				at, ok := s.waitParked(p, stepTimeout)
 				if !ok {
 					dev = fail(step, "operation-did-not-complete", map[string]any{"proc": procName(p), "released_from": from, "expected": to})
 					break
@@ -409,7 +413,7 @@ func walkOnce(g *wGraph, cfg *parConfig, tr int, r *rand.Rand, forced []int) (ev
 				time.Sleep(150 * time.Microsecond)
 			} else if e.obs.Site != "none" {
 				// the goroutine does not park again (it returns or blocks in an unbuffered operation): wait for the report
-				deadline := time.Now().Add(walkTimeout)
+				deadline := time.Now().Add(stepTimeout)
 				for len(s.takeObs(p)) == 0 && time.Now().Before(deadline) {
 					time.Sleep(20 * time.Microsecond)
 				}
@@ -548,6 +552,7 @@ func cmdParWalk(args []string) {
 	graph := fs.String("scripts", "", "edge lines printed by TLC from SchedParAgg")
 	pathFile := fs.String("path", "", "replay: json list of edge indices")
 	fs.Int("only", 0, "ignored (replay uses -path)")
+	budget := fs.Int("budget", 240, "seconds after which no new walk is started")
 	record := fs.Int("record", 40, "number of walks whose gate events are written to -out (for TraceParAgg)")
 	fs.Int("steps", 0, "ignored")
 	fs.Parse(args)
@@ -568,7 +573,8 @@ func cmdParWalk(args []string) {
 	w := bufio.NewWriterSize(f, 1<<20)
 	cv := coverOut{Ops: map[string]int{}, Kinds: map[string]int{}}
 	var devs, mms []*walkDev
-	nmis := 0
+	nmis, nrandom := 0, 0
+	t0 := time.Now()
 	var forced []int
 	if *pathFile != "" {
 		b, err := os.ReadFile(*pathFile)
@@ -584,7 +590,16 @@ func cmdParWalk(args []string) {
 	for t := 0; t < *traces; t++ {
 		id := *first + t
 		r := rand.New(rand.NewSource(*seed*7368787 + int64(id)))
-		evs, dev, mm, steps := walkOnce(g, cfg, id, r, forced)
+		if time.Since(t0) > time.Duration(*budget)*time.Second {
+			break
+		}
+		randomOnly := nmis >= 3 && forced == nil
+		if randomOnly {
+			if nrandom++; nrandom > 300 {
+				break
+			}
+		}
+		evs, dev, mm, steps := walkOnce(g, cfg, id, r, forced, randomOnly)
 		emit := func(m map[string]any) {
 			b, _ := jsonMarshal(m)
 			w.Write(b)
@@ -598,7 +613,7 @@ func cmdParWalk(args []string) {
 		}
 		if mm != nil {
 			nmis++
-			if len(mms) < 3 {
+			if len(mms) < 3 && mm.What != "model-abandoned" {
 				mms = append(mms, mm)
 			}
 		}
